@@ -289,13 +289,17 @@ def run_case(case):
             contents[nm] = scen.blob(case["seed"] + nm, rng.choice([0, 1, 100, 5000, 12345]))
             with open(os.path.join(src, nm), "wb") as f:
                 f.write(contents[nm])
-            with open(os.path.join(decoy, nm), "wb") as f:
-                f.write(b"DECOY-" + nm.encode() + b"-must-never-be-sent")
+            if k == 0 and case["nfiles"] % 2 == 0:
+                os.mkdir(os.path.join(decoy, nm))       # the working directory has a DIRECTORY of that name: what counts is what the entry is in the pushed directory
+            else:
+                with open(os.path.join(decoy, nm), "wb") as f:
+                    f.write(b"DECOY-" + nm.encode() + b"-must-never-be-sent")
         if case["subdir"]:
             os.mkdir(os.path.join(src, "subdir"))
             with open(os.path.join(src, "subdir", "inner"), "wb") as f:
                 f.write(b"inner file")
-            os.mkdir(os.path.join(decoy, "subdir"))
+            if case["nfiles"] % 3 != 0:
+                os.mkdir(os.path.join(decoy, "subdir"))       # (or no namesake at all in the working directory)
         d2 = dict(dims)
         mt = 7 if rng.random() < 0.6 else 0
         skw = {}
